@@ -7,9 +7,9 @@ using namespace fw;
 using namespace lib;
 
 enum { OP_CREATE, OP_CREATE_FAIL, OP_DESTROY, OP_DESTROY_DEAD, OP_USE, OP_PROBE_DEAD, OP_PRESET, OP_DECODE_INSUFF,
-       OP_DECODE_BADHDR, OP_BADARGS, OP_META, OP_ENCODE_THREAD, OP_RECON, OP_XDESTROY, OP_SIZE_LIE, OP_MT_FIRST, OP_NOPS };
+       OP_DECODE_BADHDR, OP_BADARGS, OP_META, OP_ENCODE_THREAD, OP_RECON, OP_XDESTROY, OP_SIZE_LIE, OP_MT_FIRST, OP_ZPAR, OP_NOPS };
 static const char *OPN[] = {"create", "create_fail", "destroy", "destroy_dead", "use", "probe_dead", "preset", "decode_insuff",
-                            "decode_badhdr", "badargs", "meta", "encode_thread", "recon", "xdestroy", "size_lie", "mt_first"};
+                            "decode_badhdr", "badargs", "meta", "encode_thread", "recon", "xdestroy", "size_lie", "mt_first", "zero_parity"};
 enum { MODE_C14 = 14, MODE_C15 = 15, MODE_C16 = 16 };
 static const int NSLOTS = 4;
 static bool g_explicit_lsan = true;     // the libFuzzer target switches to libFuzzer's own leak detection
@@ -103,6 +103,7 @@ static void *destroy_thread(void *p) { int *d = (int *)p; d[1] = liberasurecode_
 struct ThreadArg { int desc; const Config *g; const std::vector<uint8_t> *data; Stripe out; };
 static void *encode_thread(void *p) { ThreadArg *a = (ThreadArg *)p; a->out = encode(a->desc, *a->g, *a->data); return nullptr; }
 
+static void ro_queries(int desc, const Config &g, char **ptrs, int count, const Stripe &s, int first_idx, int sel, Result &r);
 static Result run_history(const Case &c, int mode) {
     Result r;
     World w; w.mode = mode;
@@ -371,6 +372,30 @@ static Result run_history(const Case &c, int mode) {
             w.failing_call = true;
             break;
         }
+        case OP_ZPAR: {
+            // an auxiliary Reed-Solomon instance WITHOUT parity fragments (m = 0 is an accepted shape: plain striping)
+            // lives and dies while the slots stay as they are; every live slot must work as before afterwards
+            Config g; g.backend = ref::B_RS; g.k = 1 + (int)(a % 12); g.m = 0; g.hd = 0; g.w = 0; g.ct = (b & 1) ? CT_CRC32 : CT_NONE;
+            int d = create(g);
+            if (d <= 0) { fail_at(step, "create of rs_vand k=" + std::to_string(g.k) + " m=0 failed rc=" + std::to_string(d)); break; }
+            for (auto &s : w.slot) if (s.live && s.desc == d) fail_at(step, "create returned a live descriptor");
+            std::vector<uint8_t> data = data_for(g, (int)(b % 1000));
+            Stripe st = encode(d, g, data);
+            if (st.rc != 0) fail_at(step, "encode on the zero-parity instance failed rc=" + std::to_string(st.rc));
+            else {
+                auto want = ref::serialize_stripe(g, data.data(), data.size(), running, false);
+                for (int i = 0; i < g.n(); i++) if (st.frags[i] != want[i]) { fail_at(step, "zero-parity encode differs from the pure reference"); break; }
+                std::vector<const std::vector<uint8_t> *> frs;
+                for (int i = 0; i < g.n(); i++) frs.push_back(&st.frags[i]);
+                FragSet fs; fs.build(frs, {});
+                DecodeOut dd = decode(d, fs, st.fraglen, 0);
+                if (dd.rc != 0 || dd.out != data) fail_at(step, "zero-parity decode of a complete stripe failed or returned wrong data");
+            }
+            if (liberasurecode_instance_destroy(d) != 0) fail_at(step, "destroy of the zero-parity instance failed");
+            w.ever.insert(d); w.dead.push_back(d);
+            for (auto &s : w.slot) if (s.live && r.ok) { Result rr; if (!round_trip(s, (int)(b % 3), rr, mode == MODE_C15)) fail_at(step, "after the life of a zero-parity instance: " + rr.msg); if (s.g.backend == ref::B_RS) w.same_backend_overlap = true; }
+            break;
+        }
         case OP_MT_FIRST: {
             // several threads make the FIRST calls on a freshly created descriptor at the same time (lazily built
             // per-instance state must not be built twice and lost); the end-of-history leak check is the oracle
@@ -482,6 +507,7 @@ static Result run_history(const Case &c, int mode) {
                 if (rc == 0) { if (o != s.s.frags[lost]) r.fail("guarded reconstruct returned a different fragment"); }
                 else if (demand) r.fail("guarded reconstruct failed rc=" + std::to_string(rc));
             }
+            ro_queries(s.desc, s.g, (char **)arr.p, (int)ptrs.size(), s.s, (int)((e + salt) % n), (int)(salt % 7), r);
             for (size_t i = 0; i < gs.size(); i++) { int idx = (int)((i + e + salt) % n); if (memcmp(gs[i]->p, s.s.frags[idx].data(), s.s.frags[idx].size())) r.fail("an input fragment changed"); }
             // encode from read-only data ending at a guard page
             std::vector<uint8_t> data = data_for(s.g, (int)(salt % 1000));
@@ -511,6 +537,24 @@ static Result run_history(const Case &c, int mode) {
     else if (mode == MODE_C15) r.nontrivial = w.encodes_same >= 1 && w.rebuilt;
     else r.nontrivial = w.failing_call && w.rebuilt;
     return r;
+}
+// the remaining public calls that take fragments, on the same read-only inputs: reconstruct of an index that IS among
+// the fragments (documented corner case: returns a copy), metadata query, validation, stripe verification
+static void ro_queries(int desc, const Config &g, char **ptrs, int count, const Stripe &s, int first_idx, int sel, Result &r) {
+    if (count <= 0) return;
+    {
+        std::vector<uint8_t> o(s.fraglen, 0x5A);
+        int rc = liberasurecode_reconstruct_fragment(desc, ptrs, count, s.fraglen, first_idx, (char *)o.data());
+        if (rc == 0 && o != s.frags[first_idx]) r.fail("reconstruct of a supplied index (read-only inputs) returned different bytes");
+        if (rc > 0) r.fail("positive rc");
+    }
+    fragment_metadata_t md; memset(&md, 0, sizeof md);
+    char *f = ptrs[sel % count];
+    int rc = liberasurecode_get_fragment_metadata(f, &md);
+    if (rc != 0) r.fail("get_fragment_metadata on a read-only fragment failed rc=" + std::to_string(rc));
+    if (g.backend != ref::B_NULL && is_invalid_fragment(desc, f) != 0) r.fail("is_invalid_fragment on a read-only intact fragment says invalid");
+    rc = liberasurecode_verify_stripe_metadata(desc, ptrs, count);
+    if (rc != 0) r.fail("verify_stripe_metadata on read-only intact fragments returned " + std::to_string(rc));
 }
 // C15 sweep case: one decode + reconstruct with every input (fragments, pointer array) on read-only pages
 // flush against guard pages. `aligned`=1 keeps the fragments 16-byte aligned (the library then works on the
@@ -553,6 +597,7 @@ static Result run_c15_guard(const Case &c) {
         if (rc == 0) { if (o != s.frags[d]) r.fail("guarded reconstruct(" + std::to_string(d) + ") returned a different fragment"); }
         else if (demand) r.fail("guarded reconstruct(" + std::to_string(d) + ") failed rc=" + std::to_string(rc));
     }
+    ro_queries(in.desc, g, (char **)arr.p, (int)ptrs.size(), s, present[0], flushsel % 7, r);
     for (size_t i = 0; i < gs.size(); i++) if (memcmp(gs[i]->p, s.frags[present[i]].data(), s.frags[present[i]].size())) r.fail("an input fragment changed");
     bool lost_data = false;
     for (int i = 0; i < g.k; i++) if (!(pm >> i & 1)) lost_data = true;
@@ -621,9 +666,9 @@ static Case gen_history(int mode) {
     int len = (int)pick(1, maxlen);
     if (coin(2, 3)) len = (int)pick(1, std::min(maxlen, 25));
     std::vector<int> wts;
-    if (mode == MODE_C14) wts = {8, 2, 5, 2, 4, 2, 1, 0, 0, 0, 0, 0, 1, 2, 0, 0};
-    else if (mode == MODE_C15) wts = {5, 1, 2, 1, 6, 0, 0, 1, 1, 1, 3, 3, 3, 0, 0, 1};
-    else wts = {6, 2, 4, 2, 5, 2, 0, 3, 3, 3, 2, 1, 3, 1, 3, 2};
+    if (mode == MODE_C14) wts = {8, 2, 5, 2, 4, 2, 1, 0, 0, 0, 0, 0, 1, 2, 0, 0, 2};
+    else if (mode == MODE_C15) wts = {5, 1, 2, 1, 6, 0, 0, 1, 1, 1, 3, 3, 3, 0, 0, 1, 1};
+    else wts = {6, 2, 4, 2, 5, 2, 0, 3, 3, 3, 2, 1, 3, 1, 3, 2, 2};
     int tot = 0; for (int x : wts) tot += x;
     auto ops = *rc::gen::resize(len, rc::gen::container<std::vector<std::tuple<int, int, int>>>(
         rc::gen::tuple(rc::gen::resize(100, rc::gen::inRange(0, tot)), rc::gen::resize(100, rc::gen::inRange(0, 1 << 12)), rc::gen::resize(100, rc::gen::inRange(0, 1 << 12)))));
@@ -653,7 +698,7 @@ static void sweep_c14() {
     int depth = (int)opts().geti("depth", opts().tier == "thorough" ? 6 : 5);
     struct Sym { int op, a, b; };
     std::vector<Sym> alpha = {{OP_CREATE, 0, 1}, {OP_CREATE, 1, 0}, {OP_CREATE, 2, 0}, {OP_CREATE_FAIL, 0, 0}, {OP_DESTROY, 0, 0}, {OP_DESTROY, 1, 0},
-                              {OP_DESTROY, 2, 0}, {OP_DESTROY_DEAD, 0, 0}, {OP_USE, 0, 3}, {OP_USE, 1, 4}, {OP_USE, 2, 5}, {OP_CREATE, 8, 1}};
+                              {OP_DESTROY, 2, 0}, {OP_DESTROY_DEAD, 0, 0}, {OP_USE, 0, 3}, {OP_USE, 1, 4}, {OP_USE, 2, 5}, {OP_CREATE, 8, 1}, {OP_ZPAR, 3, 0}};
     int A = (int)alpha.size();
     int shard = (int)opts().shard, ns = (int)opts().nshards;
     uint64_t total = 1;
